@@ -50,7 +50,6 @@ RDiv(x, y) == Norm(x[1] * y[2], x[2] * y[1])      \* y # 0
 RAbs(x) == <<Abs(x[1]), x[2]>>
 RLt(x, y) == x[1] * y[2] < y[1] * x[2]
 RIsZero(x) == x[1] = 0
-RLeOne(x) == Abs(x[1]) <= x[2]
 RECURSIVE IsPow2(_)
 IsPow2(d) == d = 1 \/ (d % 2 = 0 /\ IsPow2(d \div 2))
 Dyadic(x) == IsPow2(x[2])
@@ -189,7 +188,6 @@ CRecip(z) == <<RDiv(z[1], CDen(z)), RDiv(RNeg(z[2]), CDen(z))>>
 CDivCoded(b, a) == <<RDiv(RAdd(RMul(b[1], a[1]), RMul(b[2], a[2])), CDen(a)),
                      RDiv(RSub(RMul(b[2], a[1]), RMul(b[1], a[2])), CDen(a))>>
 CDyadic(z) == Dyadic(z[1]) /\ Dyadic(z[2])
-CModLeOne(z) == LET q == CDen(z) IN q[1] <= q[2]               \* re^2 + im^2 <= 1
 CMat(AR, AI) == [i \in 1..Len(AR) |-> [j \in 1..Len(AR) |-> CInt(AR[i][j], AI[i][j])]]
 AllCDyadicVec(b) == \A i \in 1..Len(b) : CDyadic(b[i])
 
